@@ -1,6 +1,10 @@
 package checks
 
-import "github.com/glebziz/fs_db/verifh/enum"
+import (
+	"github.com/glebziz/fs_db/verifh/enum"
+	_ "github.com/glebziz/fs_db/verifh/grpch"
+)
 
-// c10GrpcPlans is filled in by the gRPC tier (grpc.go) when it is compiled in.
-var c10GrpcPlans = func(tier string) []enum.Plan { return nil }
+// c10GrpcPlans: the stream faults of C10 (scripted raw client against the real server; real external
+// client with failing source / cancelled context).
+var c10GrpcPlans = func(tier string) []enum.Plan { return []enum.Plan{{Family: "grpc-faults"}} }
